@@ -276,7 +276,7 @@ fn check(out: &mut Acc, a: &Mat, d: &[f64], e: &[f64], v: &Mat, sym: bool, sexp:
         if out.over(0, od, C_SYM_ORTH * nf * eps) {
             // input class: at least 6 eigenvalues of A (reference spectrum) are zero relative to eps_T ||A||
             let (refd, _) = o::jacobi_eig(a);
-            let zeros = refd.iter().filter(|x| x.abs() <= eps * fro).count();
+            let zeros = refd.iter().filter(|x| x.abs() <= eps.max(1e-13) * fro).count();
             out.fail(if zeros >= 6 { "not-orthonormal:many-zero-eigenvalues" } else { "not-orthonormal" }, format!("{}: max|V^T V - I| = {:e} > {:e}; V={}", hdr(), od, C_SYM_ORTH * nf * eps, fmt_mat(v)));
         }
         // ---- A V = V diag(d) relative to ||A||
@@ -416,7 +416,8 @@ fn exec_case(label: &str, base: &Mat, sym: bool, sexp: i32, width: u8, exp: &Exp
         // ":f32-only" when the f64 run at the same scale passes the clause, else ":scaled-only".
         let reference = if width == 32 || sexp != 0 { Some(judge::<f64>(base, sym, 0, exp)) } else { None };
         let same_scale = if width == 32 && sexp != 0 { Some(judge::<f64>(base, sym, sexp, exp)) } else { None };
-        let passes = |r: &Out, clause: &str| r.panic.is_none() && !r.viols.iter().any(|v| v.0 == clause);
+        let head = |c: &str| c.split(':').next().unwrap_or("").to_string();
+        let passes = |r: &Out, clause: &str| r.panic.is_none() && !r.viols.iter().any(|v| head(v.0) == head(clause));
         for (clause, what) in &out.viols {
             let only = match &reference {
                 Some(r) if passes(r, clause) => {
